@@ -53,6 +53,7 @@ from .tflite_model_semantic import TFLiteSemantic
 from .tflite_supported_operators import TFLiteSupportedOperators
 from .tosa_model_semantic import TosaSemantic
 from .tosa_supported_operators import TosaSupportedOperators
+from .weight_compressor import CompressedWeightCache
 from ethosu.vela.architecture_features import ArchitectureFeatures
 
 CONFIG_FILES_PATH = os.path.normpath(os.path.join(__file__, "..", "..", "config_files"))
@@ -65,6 +66,7 @@ def process(input_name, enable_debug_db, arch, model_reader_options, compiler_op
     # Start from a clean process-wide state: nothing may be left behind by an earlier compilation
     DebugDatabase.clean_db()
     TensorAddressMap.clear_address_map()
+    CompressedWeightCache.clear()
 
     os.makedirs(compiler_options.output_dir, exist_ok=True)
     output_basename = os.path.join(compiler_options.output_dir, os.path.splitext(os.path.basename(input_name))[0])
@@ -357,6 +359,7 @@ def convert(input_model_name):
     # Start from a clean process-wide state: nothing may be left behind by an earlier compilation
     DebugDatabase.clean_db()
     TensorAddressMap.clear_address_map()
+    CompressedWeightCache.clear()
 
     if not os.path.exists(input_model_name):
         raise InputFileError(input_model_name, "No such file")
@@ -405,6 +408,7 @@ def convert_bytes(data):
     # Start from a clean process-wide state: nothing may be left behind by an earlier compilation
     DebugDatabase.clean_db()
     TensorAddressMap.clear_address_map()
+    CompressedWeightCache.clear()
 
     arch = Imx93ArchitectureFeatures(
         vela_config_files=None,
